@@ -29,9 +29,10 @@ type srvScript struct {
 }
 
 type srvAcct struct {
-	Pw   []int `json:"pw"`
-	Name []int `json:"name"`
-	Acc  []int `json:"acc"`
+	RawHash *string `json:"rawhash,omitempty"` // stored verbatim as the password hash (unusable hashes)
+	Pw      []int   `json:"pw"`
+	Name    []int   `json:"name"`
+	Acc     []int   `json:"acc"`
 }
 
 func bytesOf(v any) []byte {
@@ -383,7 +384,7 @@ func runSrvScript(run int, sc srvScript) (evs []map[string]any, err error) {
 	sort.Strings(logins)
 	for _, l := range logins {
 		a := sc.World.Accts[l]
-		accts = append(accts, sim.Acct{Login: l, Name: string(bytesOf(a.Name)), Password: string(bytesOf(a.Pw)), Access: sim.AccessBits(a.Acc...)})
+		accts = append(accts, sim.Acct{Login: l, Name: string(bytesOf(a.Name)), Password: string(bytesOf(a.Pw)), Access: sim.AccessBits(a.Acc...), RawHash: a.RawHash})
 	}
 	w, err := sim.NewWorld(sim.WorldOpts{Accounts: accts, Agreement: string(bytesOf(sc.World.Agreement))})
 	if err != nil {
